@@ -687,6 +687,11 @@ let rec run toks =
        library default (fully reduced sets, identity-reduced relations) *)
     let fnew = { fs with fdom = d; rule = (if fs.rel then IR else FR) } in
     Hashtbl.replace fors fn fnew;
+    Hashtbl.remove dead_forests fn;
+    let did = (match Hashtbl.find_opt dom_ids d with Some i -> i | None -> 0) in
+    let fid = int_of_nat !ls.ls_next_fid in
+    lstep_do (LCreateForest (nat_of_int did));
+    Hashtbl.replace forest_ids fn fid;
     let lv = nat_of_int (nlev fs) in
     List.iteri (fun i n ->
         match List.nth_opt l i with
